@@ -68,6 +68,7 @@ type v3Proc struct {
 	err        string
 	res        string // appender: result of the last Append
 	busy       bool   // an API call of this process is in flight
+	h          int64  // readers: the HW the goroutine loaded before it reached reader.before_resync
 }
 
 type v3Ctl struct {
@@ -172,6 +173,11 @@ func (c *v3Ctl) waitStop(p *v3Proc) {
 		case ev := <-p.ev:
 			if ev.gate != "" {
 				p.at = ev.gate
+				if ev.gate == "reader.before_resync" {
+					// the local variable `hw` of the reader is not reachable;
+					// nothing ran since it was loaded, so this is its value
+					p.h = c.l.HighWatermark()
+				}
 				return
 			}
 			// call returned
@@ -473,7 +479,7 @@ func (c *v3Ctl) project() v3State {
 				case "gate":
 					r.H = cr.hw
 				case "sync":
-					r.H = hw
+					r.H = p.h
 				}
 				if c.registered(p) {
 					st.Wait = append(st.Wait, n)
